@@ -299,13 +299,26 @@ TYPE_ERRORS = [
 ]
 
 
+# faults that only the type checker can see, in declarations of every type shape (arrays of named / prefixed records, typedef'd
+# arrays, ...): each of these is diagnosed on the pinned tree, so a missing diagnostic is a violation ("at least one error inside
+# the faulted block")
+TYPE_ERRORS_DIAGNOSED = [
+    "typedef struct { int a; int b; } pq1; pq1 tq1[i] = { {1, 2} };", "typedef struct { int a; int b; } pq2; pq2 tq2[2] = { {1, 1.5 + true}, {1, 2} };",
+    "typedef struct { int a; int b; } pq3; pq3 tq3[2] = { {i++, 2}, {1, 2} };", "typedef struct { int a; int b; } pq4; meta pq4 tq4[2] = { {1, c}, {1, 2} };",
+    "const struct { int a; int b; } tq5[2] = { {i, 2}, {1, 2} };", "typedef struct { int a; clock k; } pq6; const pq6 tq6[2];",
+    "typedef struct { int a; int b; } pq7; pq7 tq7[2][2] = { { {1, 2}, {1, c} }, { {1, 2}, {1, 2} } };", "typedef struct { int a; } pq8; urgent pq8 tq8[2];",
+    "typedef int rq9[2]; rq9 tq9[2] = { {1, c}, {1, 2} };", "typedef int[0,3] bq10; bq10 tq10[i];", "typedef struct { int a; } pq11; pq11 tq11 = { c };",
+    "struct { int a; int b; } tq12[2] = { {1, c}, {1, 2} };", "int tq13[2] = { 1, c };", "typedef scalar[3] sq14; int tq14[sq14] = { 1, c, 2 };",
+]
+
+
 def run_type_errors(arg):
     i, n = arg
     part = engine.Part()
     w = engine.worker("fast")
     g0 = "int i; clock x; chan c;"
     cases = []
-    for k, d in enumerate(TYPE_ERRORS):
+    for k, d in enumerate(TYPE_ERRORS + TYPE_ERRORS_DIAGNOSED):
         if k % n != i:
             continue
         for where in ("global", "local"):
@@ -330,6 +343,9 @@ def run_type_errors(arg):
         diags = [("error", e) for e in r.get("errors", [])] + [("warning", e) for e in r.get("warnings", [])]
         if not diags:
             part.outcome("type-error:not-diagnosed")
+            if d in TYPE_ERRORS_DIAGNOSED:
+                part.violation("type-error-not-diagnosed:%s" % re.sub(r"\d+", "", d.split(";")[-2].strip().split("=")[0])[:30],
+                               "%s: the declaration is wrong in a way only the type checker sees, and nothing is reported" % key, rp)
             continue
         fid = re.sub(r"\d+", "", d.split("(")[0].split("=")[0].strip())[:28]
         good = check_positions(root, diags, part, "type-error", key, rp, fid)
